@@ -196,7 +196,8 @@ impl Arena {
 
     #[allow(clippy::mut_from_ref)]
     pub fn alloc_uninit_slice<T>(&self, count: usize) -> &mut [MaybeUninit<T>] {
-        let bytes = mem::size_of::<T>() * count;
+        // A wrapped byte count would hand out a slice far larger than its backing block.
+        let bytes = mem::size_of::<T>().checked_mul(count).expect("arena slice size overflow");
         let alignment = mem::align_of::<T>();
         let ptr = self.alloc_raw(bytes, alignment).unwrap();
         unsafe { slice::from_raw_parts_mut(ptr.cast().as_ptr(), count) }
